@@ -134,6 +134,8 @@ class PixCoord:
         `np.testing.assert_allclose` with its default tolerance values.
         """
         if isinstance(other, self.__class__):
+            if np.shape(self.x) != np.shape(other.x):
+                return False
             return np.allclose([self.x, self.y], [other.x, other.y])
         return False
 
